@@ -57,6 +57,10 @@ var errCapture = fmt.Errorf("c17-capture")
 func freshDefault(iface reflect.Type, name string) reflect.Value {
 	var got interface{}
 	_, _ = plugin.New(iface, name, func(conf interface{}) error { got = conf; return errCapture })
+	if got == nil {
+		// the registry did not offer a config to fill (it does, an empty struct, also for a plugin without config)
+		return reflect.ValueOf(&struct{}{})
+	}
 	return reflect.ValueOf(got)
 }
 
@@ -421,9 +425,12 @@ func rawVal(v any) string {
 // dval prints a decoded Go value canonically (same shape the Lean model prints)
 func dval(v reflect.Value) string {
 	t := v.Type()
-	if _, fac, ok := pluginPos(t); ok {
+	if iface, fac, ok := pluginPos(t); ok {
 		if v.IsNil() {
 			return "nil"
+		}
+		if iface == probeIface {
+			return probeDval(v, fac) // the config every instance received
 		}
 		if fac {
 			return "F"
